@@ -27,7 +27,34 @@ PROPS = {}
 TWINS = {"VERIF_TWINS_ONLY": "1", "VERIF_TWINS_EVERY": "1"}
 
 
+# every property: the rapid sub-checks once more at a small scale with GOMAXPROCS varied per case (pb.flipProcs), in one
+# process started with GOMAXPROCS=1 and one started with the default; under the race detector where the property is
+# about concurrent use
+PROCS_MODE = {"C01": "race", "C11": "race", "C12": "race", "C19": "plain"}
+PROCS_RUN = {"C01": "^(TestRaced|TestRacedLoops)$", "C11": "^(TestRaced|TestRacedLoops)$", "C12": "^(TestRaced|TestRacedLoops)$", "C19": "^TestLimiter$"}
+
+
+ARCH32 = {"C02", "C03", "C04", "C05", "C06", "C07", "C08", "C09", "C10", "C13", "C14", "C15", "C16", "C17", "C18", "C20"}
+
+
 def add(pid, pkg, quick, thorough, twins=False, **kw):
+    mode = PROCS_MODE.get(pid, "plain")
+    for tier, sc, to in ((quick, 0.1, 600), (thorough, 1.0, 3000)):
+        run = PROCS_RUN.get(pid, "^TestProps$")
+        if pid in PROCS_RUN:
+            sc *= 3
+        tier["jobs"].append(dict(name="procs1", mode=mode, run=run, shards=1, scale=sc, timeout=to, env={"VERIF_PROCS_FLIP": "1", "GOMAXPROCS": "1"}))
+        tier["jobs"].append(dict(name="procsN", mode=mode, run=run, shards=1, scale=sc, timeout=to, env={"VERIF_PROCS_FLIP": "1"}))
+    if pid in ("C01", "C11", "C12"):
+        # the controlled-schedule sub-checks as well (there the interleaving does not depend on the processors, so a code
+        # path taken only for a particular GOMAXPROCS value is explored under every generated schedule)
+        for tier, sc, to in ((quick, 0.5, 600), (thorough, 8.0, 3000)):
+            tier["jobs"].append(dict(name="sched_procs1", mode="sched", run="^TestProps$", shards=1, scale=sc, timeout=to, env={"VERIF_PROCS_FLIP": "1", "GOMAXPROCS": "1"}))
+            tier["jobs"].append(dict(name="sched_procsN", mode="sched", run="^TestProps$", shards=1, scale=sc, timeout=to, env={"VERIF_PROCS_FLIP": "1"}))
+    if pid in ARCH32:
+        # the sequential sub-checks once more in a binary built for linux/386 (32-bit int / uint / uintptr)
+        quick["jobs"].append(dict(name="arch32", mode="plain386", run="^TestProps$", shards=1, scale=0.1, timeout=600))
+        thorough["jobs"].append(dict(name="arch32", mode="plain386", run="^TestProps$", shards=2, scale=1.0, timeout=3000))
     if twins:
         quick["jobs"].append(dict(name="twins", mode="race", run="^TestProps$", shards=1, scale=0.02, timeout=600, env=dict(TWINS)))
         thorough["jobs"].append(dict(name="twins", mode="race", run="^TestProps$", shards=4, scale=0.5, timeout=3000, env=dict(TWINS)))
@@ -147,11 +174,11 @@ add("C01", "c01",
     {"jobs": [dict(name="sched", mode="sched", run="^TestProps$", shards=6, scale=2, timeout=600),
               dict(name="exh", mode="sched", run="^TestExhaustive$", shards=1, timeout=600),
               dict(name="race", mode="race", run="^TestRaced$", shards=3, scale=1, timeout=600),
-              dict(name="loops", mode="race", run="^TestRacedLoops$", shards=2, scale=1, timeout=600)]},
+              dict(name="loops", mode="race", run="^(TestRacedLoops|TestElementsAcrossGC)$", shards=2, scale=1, timeout=600)]},
     {"jobs": [dict(name="sched", mode="sched", run="^TestProps$", shards=10, scale=80, timeout=3000),
               dict(name="exh", mode="sched", run="^TestExhaustive$", shards=1, timeout=3000),
               dict(name="race", mode="race", run="^TestRaced$", shards=3, scale=30, timeout=3000),
-              dict(name="loops", mode="race", run="^TestRacedLoops$", shards=2, scale=15, timeout=3000)]},
+              dict(name="loops", mode="race", run="^(TestRacedLoops|TestElementsAcrossGC)$", shards=2, scale=15, timeout=3000)]},
     replay_modes=["sched", "race"])
 
 # ---- C12 SafeKV (controlled schedules + race detector) ------------------------------------------
